@@ -331,6 +331,61 @@ pub fn c15_random(ctx: &Ctx, rng: &mut Rng, seed: u64, quick: bool) -> History {
     History { property: "C15".into(), seed, label, steps }
 }
 
+/// Deeper histories that mix every fault kind the simulator has: hook-level kills and errors,
+/// system-call level kills and errnos (when `strace` is usable), a full disk (when `mount` is), and
+/// damage in between; each fault lands in the recovery from the previous one.
+pub fn c15_random_mixed(ctx: &Ctx, rng: &mut Rng, seed: u64, quick: bool, strace: bool, mount: bool) -> History {
+    let states = c15_states(ctx, true);
+    let (tag, st) = rng.pick(&states).clone();
+    let subset = if quick { qprime_subset(ctx, rng, 60) } else { qprime_subset(ctx, rng, 250) };
+    let depth = rng.range(2, 4);
+    let other_schema = st.index == IndexSpec::ForeignSchema;
+    let mut steps = vec![Step::Fabricate { state: st }];
+    let mut label = format!("{tag}");
+    let sites = syscall_sites();
+    let mut used_disk = false;
+    for _ in 0..depth {
+        if rng.chance(1, 4) {
+            let d = if other_schema { random_damage_keeping_version_honest(ctx, rng) } else { random_damage(ctx, rng) };
+            label.push_str(&format!(" / {d:?}"));
+            steps.push(Step::Damage { d });
+        }
+        match rng.below(3) {
+            0 if strace => {
+                let (call, max, errno) = *rng.pick(&sites);
+                let when = rng.range(1, max);
+                let errno = if rng.chance(1, 2) { Some(errno.to_string()) } else { None };
+                let f = Fault::Syscall { call: call.to_string(), when, errno };
+                label.push_str(&format!(" / {}", fault_label(&f)));
+                steps.push(Step::Start { session: c15_session(ctx, vec![f], subset.clone()) });
+            }
+            1 if mount => {
+                let (p, i) = match rng.below(3) {
+                    0 => (Some(rng.range(0, 40) as u64), None),
+                    1 => (None, Some(rng.range(0, 16) as u64)),
+                    _ => (Some(rng.range(0, 40) as u64), Some(rng.range(0, 16) as u64)),
+                };
+                label.push_str(&format!(" / disk({p:?},{i:?})"));
+                steps.push(Step::Disk { free_pages: p, free_inodes: i });
+                steps.push(Step::Start { session: c15_session(ctx, vec![], subset.clone()) });
+                // space comes back before anything else happens (damage between starts needs room too)
+                steps.push(Step::Disk { free_pages: None, free_inodes: None });
+                used_disk = true;
+            }
+            _ => {
+                let faults = random_fault(ctx, rng);
+                label.push_str(&format!(" / {}", faults.iter().map(fault_label).collect::<Vec<_>>().join("+")));
+                steps.push(Step::Start { session: c15_session(ctx, faults, subset.clone()) });
+            }
+        }
+    }
+    let _ = used_disk;
+    let mem_first = rng.chance(1, 2);
+    steps.push(Step::Start { session: c15_session_ordered(ctx, vec![], subset.clone(), mem_first) });
+    steps.push(Step::Start { session: c15_session(ctx, vec![], subset) });
+    History { property: "C15".into(), seed, label: format!("mixed: {label}"), steps }
+}
+
 /// System calls swept by the ptrace injector: (call, highest `when` to try, errno for the error flavour).
 pub fn syscall_sites() -> Vec<(&'static str, usize, &'static str)> {
     vec![
